@@ -105,8 +105,26 @@ def stepOp (st : HistState) (toks : List String) : Option (StepRes × Env) :=
       | _, _ => none
   | _ => none
 
+/-- what the implementation itself reports in a history, whatever the model says: the first step that panicked, whose
+result is not made of the table's nodes, or that differs from the same operation in a fresh environment -/
+def implFacts (steps : List String) : Option String :=
+  (steps.zipIdx.findSome? (fun (step, i) =>
+    match step.splitOn " => " with
+    | [lhs, rhs] =>
+      match (rhs.splitOn " # ").map (fun s => s.trimAscii.toString) with
+      | realDump :: _ :: ptrok :: fresh :: _ =>
+        if realDump.startsWith "PANIC" then some s!"step {i + 1} ({lhs}): the operation panicked in the long-lived environment: {realDump}"
+        else if ptrok != "1" then some s!"step {i + 1} ({lhs}): a node reachable from the result is not the environment's shared node for its structure (or a leaf is missing)"
+        else if fresh != "1" then some s!"step {i + 1} ({lhs}): the result differs structurally from the same operation in a fresh environment"
+        else none
+      | _ => none
+    | _ => none))
+
 /-- a step: `<op tokens> => <dump> # <table size> # <ptrok 0/1> # <fresh-equal 0/1> # chk r<j> <dump> …` -/
 def runHistory (steps : List String) : Verdict := Id.run do
+  -- a difference from the model stops the replay of a history; what the implementation reports further on in the
+  -- same history (a panic, a node outside the table, a difference from a fresh environment) is still looked for
+  let later := implFacts steps
   let mut st : HistState := {}
   let mut idx := 0
   let mut nontriv := false
@@ -145,9 +163,9 @@ def runHistory (steps : List String) : Verdict := Id.run do
               pure ((if b.1 then "1" else "0") ++ (if b.2 then "1" else "0"))
             | .diverge => pure "DIVERGE"
           if mDump != realDump then
-            return { modelOk := false, modelOut := s!"step {idx} ({lhs}): model {mDump} vs implementation {realDump}" }
+            return { modelOk := false, modelOut := s!"step {idx} ({lhs}): model {mDump} vs implementation {realDump}", oracle := later }
           if toString st.env.table.length != realSize then
-            return { modelOk := false, modelOut := s!"step {idx} ({lhs}): model table size {st.env.table.length} vs implementation {realSize}" }
+            return { modelOk := false, modelOut := s!"step {idx} ({lhs}): model table size {st.env.table.length} vs implementation {realSize}", oracle := later }
           -- re-inspection of older handles: they must dump as they did (model side: values are immutable)
           for c in chks do
             match c.splitOn " " with
